@@ -625,15 +625,16 @@ def gen_e_case(rng, method, big):
     N = rng.choice([3 * D + 6, 4 * D + 10, 40, 60]) if not big else rng.choice([4 * D + 10, 6 * D + 20, 150])
     N = max(N, 12)
     d = rng.randint(1, D - 1) if D > 1 else 1
-    if rng.random() < 0.1:
-        d = D                                   # all projection directions
+    if rng.random() < 0.1 and method != "lltsa":
+        d = D                                   # all projection directions (LLTSA: the property wants d < D; with
+                                                # d = D every tangent space is the whole space and lhs = shift * rhs)
     k = rng.randint(3, min(N - 1, 15))
     if rng.random() < 0.15:
         k = rng.choice([N // 2, N - 1])         # large neighbourhoods
     if method == "lltsa":
         # d = k - 1 makes every local tangent basis span the whole neighbourhood: the alignment matrix is
         # then rounding noise (I - G G^T = 0); keep two spare directions
-        d = max(1, min(d, k - 3))
+        d = max(1, min(d, k - 3, D - 1))
     # latent low-dimensional structure + correlated noise + offset
     q = min(D, 3)
     lat = [[rng.uniform(-3, 3) for _ in range(q)] for _ in range(N)]
@@ -816,7 +817,10 @@ def eval_e(ctx, exe1, exe2, cases, stats, rng, rotate_every=2):
                     ee = max(ee, abs(y - Y[s][j]))
             if not ee <= EMB_TOL * scale * max(1.0, max(abs(m) for m in mean)):
                 why.append("embedding differs from P^T (x - mean) by %.2e" % ee)
-        stats["e_max_res"] = max(stats["e_max_res"], max(rs) if rs else 0.0)
+        if rs and max(rs) > stats["e_max_res"]:
+            stats["e_max_res"] = max(rs)
+            stats["e_max_res_case"] = "%s N=%d D=%d d=%d k=%d nshift=%.0e cond=%.1e" % (
+                c["method"], N, D, d, c["k"], parse_hex(c["nshift"]), condB)
         if why:
             sig = None
             ctx.violation(c, "tapkee::embed(%s), N=%d D=%d d=%d k=%d: %s" % (c["method"], N, D, d, c["k"],
@@ -950,7 +954,7 @@ def build_all(ctx):
 def new_stats():
     return {"malformed": 0, "spec_ok": 0, "spec_fail": 0, "other_triangle_differs": 0, "g_ok": 0,
             "select_bad": 0, "e_ok": 0, "e_fail": 0, "ref_failed": 0, "rot_ok": 0, "rot_fail": 0,
-            "j_ok": 0, "j_fail": 0, "chain_ok": 0, "chain_bad": 0, "chain_missing": 0, "rot_cols": 0, "rot_skipped_gap": 0, "rot_skipped_unstable_M": 0, "rot_max_M_reldiff": 0.0, "rot_min_cos": 1.0, "e_max_res": 0.0, "e_max_condB": 0.0, "e_skipped_illconditioned": 0, "triangle_votes": {}}
+            "j_ok": 0, "j_fail": 0, "chain_ok": 0, "chain_bad": 0, "chain_missing": 0, "rot_cols": 0, "rot_skipped_gap": 0, "rot_skipped_unstable_M": 0, "rot_max_M_reldiff": 0.0, "rot_min_cos": 1.0, "e_max_res": 0.0, "e_max_res_case": "", "e_max_condB": 0.0, "e_skipped_illconditioned": 0, "triangle_votes": {}}
 
 
 K_KINDS = ("plain", "plain", "correlated", "symmetric", "alignment", "empty", "zero")
